@@ -375,6 +375,7 @@ def hist_oracle(cases):
                       "replay_body": hist_text(c, k, what), "case": c})
     for c in cases:
         enc_epoch, processed, at_epoch = {}, {}, {}
+        announced = set()      # (client, f): the client created the announcing message itself (stored at once, state Created)
         for k, (op, res) in enumerate(zip(c["ops"], c["res"])):
             t = op.split()
             meta = c["meta"].get(k, {})
@@ -385,6 +386,8 @@ def hist_oracle(cases):
                     enc_epoch[int(t[2])] = int(kvs(res)["epoch"])
                 else:
                     fail(c, k, "media-encrypt-refused", f"a valid upload was refused: {res[:100]}")
+            elif t[0] == "announce" and res.startswith("ev="):
+                announced.add((int(t[1]), int(t[2])))
             elif t[0] == "tag" and res.startswith("tag=") and res != "tag=-":
                 processed[(int(t[1]), int(t[2]))] = int(res[4:])
                 m = re.match(r"E(\d+) ", c["fp"][k - 1]) if k > 0 else None
@@ -397,6 +400,9 @@ def hist_oracle(cases):
                 if role == "member":
                     st["member_decrypts"] += 1
                     if (int(t[1]), f) not in processed:
+                        if (int(t[1]), f) in announced and not ok:
+                            # the sender holds its own announcing message from the moment it created it
+                            fail(c, k, "media-sender-cannot-decrypt", f"the member that encrypted and announced the file cannot decrypt it (no epoch hint found for its own stored announcing message): {res[:160]}")
                         st["announcement_not_processed"] += 1
                         continue
                     tag = processed[(int(t[1]), f)]
